@@ -94,7 +94,7 @@ def write_hitran_cia(directory, pair, blocks, scale=(10000000000, 1), suffix='_2
         for T, wn, sig in blocks:
             wn = np.asarray(wn, dtype=float)
             v = np.asarray(sig, dtype=float) * s
-            f.write('%20s%10.3f%10.3f%7d%7.1f%10.3E%6.3f %s\n' % (pair, wn.min(), wn.max(), len(wn), T, v.max(), -0.999, 'verif'))
+            f.write('%20s%10.3f%10.3f%7d%7.1f%10.3E %5s %s\n' % (pair, wn.min(), wn.max(), len(wn), T, v.max(), '-.999', 'verif'))
             for a, b in zip(wn, v):
                 f.write('%10.4f %10.3E\n' % (a, b))
     return fn
